@@ -11,6 +11,7 @@ from __future__ import annotations
 
 import itertools
 import random
+import numpy as np
 
 from ..common import Driver, log
 from ..kernels import (DT, KERNELS, call_group_kernel, decode_model, expected_from,
@@ -60,7 +61,8 @@ def run(res, tier="quick", seed=0, widen=False):
                 "alphabet containing null (plus all-null); 9 kernels x dtype classes {f8,i8,bool,datetime64 + rotating f4,i4,u1,timedelta}; "
                 "masks none/bool/all-false/slice(neg bounds)/positions(repeats, negatives); splits: n_threads 1..4 and chunked value lists "
                 "(every composition into <= 4 blocks, sampled); non-trivial = >= 2 distinct non-null codes or a null code/value or a mask; "
-                "distinct = canonical (kernel,dtype,codes,values,mask,split)" % (maxlen, vals_per_codes))
+                "distinct = canonical (kernel,dtype,codes,values,mask,split); float64 sums (nansum / sum / nansum_squares, 0-16 rows, 1-4 groups, null codes, boolean masks, 1-8 threads, "
+                "magnitudes 5e-324..1e308, infinities, NaN, -0.0) BIT FOR BIT, value and count, against the primitive-float model Model/ReduceFloat.v evaluated inside Coq" % (maxlen, vals_per_codes))
     cases = []
     code_seqs = [()]
     for n in range(1, maxlen + 1):
@@ -189,8 +191,88 @@ def run(res, tier="quick", seed=0, widen=False):
                 res.violations.append(dict(sig={**sig, "kind": "wrong-result"}, case=case, observed=str(impl)[:300],
                                            expected=str((exp_s, scnt))[:300],
                                            what=f"group_{kernel} differs from the per-group definition"))
+    float_model_stream(res, rng, tier, nbf)
     res.exhaustive = False
     res.extra["multi_block_cases"] = multi_used
+
+
+def float_model_stream(res, rng, tier, nbf):
+    """Tie A in IEEE-754 for the grouped float64 sums behind GroupBy.sum / mean / var: numba._group_func_wrap with 'nansum',
+    'sum' and 'nansum_squares', 1-8 kernel threads, with and without a boolean mask, against Model/ReduceFloat.v - a bit-exact
+    transcription in Coq's primitive floats (array_split pieces, per-piece per-group running sums, left-to-right merge that
+    skips empty pieces) evaluated by vm_compute: value AND count of every group, every magnitude, infinities, NaN, -0.0."""
+    import os
+    import subprocess
+    import warnings
+    from ..common import VERIF, COQ
+    alpha = [float("nan"), 1.0, 2.5, -3.0, 0.5, 0.1, 0.7, 4.0, 0.3, 1e16, -1e16, 1e8 + 0.1, float(2**60), -7e15, 1e9 + 0.125, float("inf"), float("-inf"), 1e308, -1e308, 5e-324, -0.0, 1e-300, 1e150, 1e200]
+    names = ["nansum", "sum", "nansum_squares"]
+
+    def lit(x):
+        x = float(x)
+        if x != x:
+            return "nan"
+        if x == float("inf"):
+            return "infinity"
+        if x == float("-inf"):
+            return "neg_infinity"
+        h = x.hex()
+        return "(" + h + ")" if h.startswith("-") else h
+    cases = []
+    for t in range(300 if tier == "quick" else 3000):
+        L = rng.randint(0, 16)
+        ng = rng.randint(1, 4)
+        keys = [rng.choice(list(range(ng)) + [-1]) if rng.random() < 0.9 else rng.randrange(ng) for _ in range(L)]
+        vals = [rng.choice(alpha if rng.random() < 0.6 else alpha[:9]) for _ in range(L)]
+        fn = rng.randrange(3)
+        nt = rng.choice([1, 1, 2, 3, 4, 5, 8])
+        mask = [rng.random() < 0.7 for _ in range(L)] if rng.random() < 0.4 and L > 0 else None
+        case = dict(stream="reduce-float-model", func=names[fn], n_threads=nt, keys=keys, values=[lit(v) for v in vals], mask=mask, ngroups=ng)
+        out = None
+        with warnings.catch_warnings():
+            warnings.simplefilter("ignore")
+            for attempt in range(3):
+                try:
+                    out = nbf._group_func_wrap(names[fn], np.array(keys, dtype="int64"), np.array(vals, dtype="float64"), ng,
+                                               None if mask is None else np.array(mask, dtype=bool), nt, True)
+                    break
+                except ReferenceError:          # numba's on-disk cache being rewritten by a concurrent process
+                    continue
+                except Exception as e:  # noqa: BLE001
+                    res.violations.append(dict(sig=dict(kernel=names[fn], kind="raised", stream="reduce-float-model"), case=case, observed=repr(e)[:200], expected="per-group sums",
+                                               what="_group_func_wrap raised on a well-formed float64 input"))
+                    break
+        if out is None:
+            continue
+        value, count = out
+        for g in range(ng):
+            cases.append((fn, nt, keys, vals, mask, g, float(value[g]), int(count[g])))
+        res.note_case(repr(("reduce-float-model", fn, nt, keys, [lit(v) for v in vals], mask, ng)), True)
+        res.count("stream", "reduce-float-model"); res.count("split", "threads=%d" % nt)
+    d = VERIF / ".cache" / "gfloat" / str(os.getpid())
+    d.mkdir(parents=True, exist_ok=True)
+
+    def row(c):
+        fn, nt, keys, vals, mask, g, out, cnt = c
+        return (f"({fn}%nat, {nt}%nat, [{'; '.join('(%d)' % k for k in keys)}]%Z, [{'; '.join(lit(v) for v in vals)}], "
+                f"[{'; '.join('true' if m else 'false' for m in (mask or []))}], ({g})%Z, {lit(out)}, ({cnt})%Z)")
+    (d / "cases.v").write_text("From Coq Require Import List ZArith PrimFloat.\nFrom GL Require Import Model.ReduceFloat.\nImport ListNotations.\nOpen Scope float_scope.\n"
+                               "Definition cases : list (nat * nat * list Z * list float * list bool * Z * float * Z) :=\n  [" + ";\n  ".join(row(c) for c in cases) + "].\n"
+                               "Eval vm_compute in map check_reduce cases.\n")
+    p = subprocess.run(["timeout", "900", "coqc", "-Q", str(COQ / "theories"), "GL", "cases.v"], cwd=d, stdout=subprocess.PIPE, stderr=subprocess.STDOUT)
+    txt = p.stdout.decode(errors="replace")
+    flags = [w for w in txt.replace("[", " ").replace("]", " ").replace(";", " ").split() if w in ("true", "false")]
+    for f in d.iterdir():
+        f.unlink()
+    d.rmdir()
+    if p.returncode != 0 or len(flags) != len(cases):
+        res.model_mismatches.append(dict(case="reduce-float-model", impl="-", model=f"coqc failed or printed {len(flags)} results for {len(cases)} cases: " + txt[-400:]))
+        return
+    for c, ok in zip(cases, flags):
+        if ok != "true":
+            fn, nt, keys, vals, mask, g, out, cnt = c
+            res.model_mismatches.append(dict(case=dict(stream="reduce-float-model", func=names[fn], n_threads=nt, keys=keys, values=[lit(v) for v in vals], mask=mask, group=g),
+                                             impl=f"{lit(out)} count {cnt}", model="Model/ReduceFloat.group_reduce_f gives another bit pattern or count"))
 
 
 def replay(payload):
